@@ -10,7 +10,7 @@ import (
 func init() {
 	register(&Rule{
 		Name:     "KEYSRC",
-		Doc:      "every JSON member key that thrift->JSON writes for a struct field (json.EncodeString whose string argument is a thrift.FieldDescriptor accessor) uses the accessor Alias() — the declared key (api.key / go.tag / name-case mapping, equal to the name by default) that JSON->thrift looks fields up by",
+		Doc:      "every JSON member key that the binary->JSON converters write for a field (json.EncodeString whose string argument is a FieldDescriptor accessor) uses the declared-key accessor — thrift: Alias(), protobuf: JSONName() — — the declared key (api.key / go.tag / name-case mapping, equal to the name by default) that JSON->thrift looks fields up by",
 		Configs:  "NP",
 		Floor:    map[string]int{"N": 3, "P": 3},
 		Controls: 1,
@@ -36,7 +36,8 @@ func runKeySrc(rc *RuleCtx) {
 	w := rc.W
 	enc := w.Fn("internal/json.EncodeString")
 	for _, fn := range w.Funcs {
-		if pkgRel(fn) != "conv/t2j" {
+		pr := pkgRel(fn)
+		if pr != "conv/t2j" && pr != "conv/p2j" {
 			continue
 		}
 		for _, b := range fn.Blocks {
@@ -50,11 +51,20 @@ func runKeySrc(rc *RuleCtx) {
 					continue
 				}
 				cal := src.Call.StaticCallee()
-				if cal == nil || cal.Signature.Recv() == nil || !isNamed(cal.Signature.Recv().Type(), "thrift", "FieldDescriptor") {
+				if cal == nil || cal.Signature.Recv() == nil {
+					continue
+				}
+				wantAcc := ""
+				switch {
+				case isNamed(cal.Signature.Recv().Type(), "thrift", "FieldDescriptor"):
+					wantAcc = "Alias"
+				case isNamed(cal.Signature.Recv().Type(), "proto", "FieldDescriptor"):
+					wantAcc = "JSONName"
+				default:
 					continue
 				}
 				rc.Examined++
-				rc.verdict(cal.Name() == "Alias", fn, "member-key", c.Pos(), "member key taken from FieldDescriptor."+cal.Name()+"()", true)
+				rc.verdict(cal.Name() == wantAcc, fn, "member-key", c.Pos(), "member key taken from FieldDescriptor."+cal.Name()+"() (declared JSON key: "+wantAcc+"())", true)
 			}
 		}
 	}
